@@ -288,3 +288,38 @@ def c10_pool_assembly4(p: List[int], nf: bool, in_anno: bool) -> int:
     post: _ >= 0
     """
     return _check_pool(p, nf, in_anno)
+
+
+def _pool2(p1, p2):
+    """two proteins (whole protein = one digestion product): pool = both peptides + their I->L images,
+    whatever the order of the proteins"""
+    def fake_cleave(self, rule, exception=None, miscleavage=2, min_mw=500., min_length=7,
+                    max_length=25, cds_start_nf=False):
+        return [self]
+
+    d = aa.AminoAcidSeqDict()
+    d['T1'] = AminoAcidSeqRecord(mkseq(p1), _id='P1', transcript_id='T1')
+    d['T2'] = AminoAcidSeqRecord(mkseq(p2), _id='P2', transcript_id='T2')
+    with patched((AminoAcidSeqRecord, 'enzymatic_cleave', fake_cleave)):
+        pool = d.create_unique_peptide_pool(anno=_AnnoFake({}), rule='trypsin', exception=None)
+    want = set()
+    for p in (p1, p2):
+        s = ''.join(chr(c) for c in p)
+        want.add(s)
+        want.add(s.replace('I', 'L'))
+    return OK if pool == want else -7
+
+
+@cond('C10', bounds='two proteins of length <= 2 over {A, I, L} (every pair, both orders): pool = digestion products '
+      'of both plus their I->L images', encodes=ENC3,
+      stubs=['AminoAcidSeqRecord.enzymatic_cleave (identity; decided by c10_digest_*)'], codes=CODES3, timeout=300)
+def c10_pool_two_proteins(i1: List[int], i2: List[int]) -> int:
+    """
+    pre: 1 <= len(i1) <= 2 and 1 <= len(i2) <= 2
+    pre: all(0 <= c <= 2 for c in i1) and all(0 <= c <= 2 for c in i2)
+    post: _ >= 0
+    """
+    from mpgverif.hlib import concretize
+    p1 = [[65, 73, 76][concretize(c, 0, 2)] for c in i1]
+    p2 = [[65, 73, 76][concretize(c, 0, 2)] for c in i2]
+    return _pool2(p1, p2)
